@@ -163,6 +163,10 @@ func buildModule(s *modSpec) []byte {
 		add(fmt.Sprintf("gget%d", k), nil, T(t), wb.GlobalGet(uint32(k)))
 	}
 	add("tnull", T(i32), nil, lg(0), wb.Op(wasm.OpcodeRefNull, wasm.RefTypeFuncref), wb.Op(wasm.OpcodeTableSet, 0))
+	for _, k := range declaredFuncs(s) {
+		// a function reference created at run time by ref.func (only functions declared in an element segment may be referenced)
+		add(fmt.Sprintf("tref%d", k), T(i32), nil, lg(0), wb.Op(wasm.OpcodeRefFunc), wb.U32(uint32(nImports+k)), wb.Op(wasm.OpcodeTableSet, 0))
+	}
 	add("tmove", T(i32, i32), nil, lg(0), lg(1), wb.Op(wasm.OpcodeTableGet, 0), wb.Op(wasm.OpcodeTableSet, 0))
 	add("tisnull", T(i32), T(i32), lg(0), wb.Op(wasm.OpcodeTableGet, 0), wb.Op(wasm.OpcodeRefIsNull))
 	add("calli", T(i32), T(i32), lg(0), wb.Op(wasm.OpcodeCallIndirect), wb.U32(tyCall), wb.U32(0))
@@ -221,6 +225,26 @@ func buildModule(s *modSpec) []byte {
 	}
 	elems = append(elems, x)
 	return m.BytesWithSegments(elems)
+}
+
+// declaredFuncs lists the callable functions c_k that occur in some element segment (sorted).
+func declaredFuncs(s *modSpec) []int {
+	seen := map[int64]bool{}
+	for _, e := range s.EPas {
+		for _, k := range e {
+			seen[k] = true
+		}
+	}
+	for _, k := range s.EAct {
+		seen[k] = true
+	}
+	var out []int
+	for k := 0; k < nCFuncs; k++ {
+		if seen[int64(k)] {
+			out = append(out, k)
+		}
+	}
+	return out
 }
 
 type op struct {
@@ -285,7 +309,11 @@ func genOps(r *rand.Rand, s *modSpec, n int, rw bool, allowClose bool) []op {
 		case 7:
 			o = op{fmt.Sprintf("gget%d", r.Intn(len(s.Globals))), nil}
 		case 8:
-			o = op{"tnull", []uint64{tidx()}}
+			if ds := declaredFuncs(s); len(ds) > 0 && r.Intn(2) == 0 {
+				o = op{fmt.Sprintf("tref%d", ds[r.Intn(len(ds))]), []uint64{tidx()}}
+			} else {
+				o = op{"tnull", []uint64{tidx()}}
+			}
 		case 9, 10:
 			o = op{"tmove", []uint64{tidx(), tidx()}}
 		case 11:
